@@ -79,7 +79,13 @@ theorem iop_eq_binop (op : α → α → α) (f g : Factor α) (σ : Attr → Na
   Factor.iop_eq_binop op f g σ hf hg hc ha hσ
 
 /-- aggregation (`sum`, `logsumexp`, `max` are `reduce r` for the respective `r`) over named
-attributes: the value at `σ` is the aggregate of `f` over all settings of the removed attributes -/
+attributes: the value at `σ` is the aggregate of `f` over all settings of the removed attributes.
+
+Totalised lookup (audit 2): an attribute of `as` that is NOT in `f.dom` is ignored by the model (`Dom.removed` filters `f.dom.attrs`)
+where the source's `self.attrs.index(a)` raises `ValueError`; the statement describes the code under `Factor.preReduce f as`
+(`f.dom.hasAll as`), which is not a hypothesis.  Likewise for the `CliqueVec` theorems of C14B (`sem_addV`, `dotV_spec`): a
+missing KEY reads the default `Factor.zeros []` where Python raises `KeyError`.  Not translated at all: the `out=` variants of
+`Factor.exp` / `Factor.log` / `copy` (in-place store into a caller's table) — `tools/py2factor.py` leaves those branches out. -/
 theorem sem_reduce (r : List α → α) (f : Factor α) (as : List Attr) (σ : Attr → Nat)
     (hf : f.WF) (hσ : f.dom.Valid σ) :
     (reduce r f as).sem σ
